@@ -10,6 +10,7 @@ import (
 	"encoding/json"
 	"math/rand"
 	"os"
+	"sort"
 
 	"verifharness/absx"
 	"verifharness/walk"
@@ -45,11 +46,65 @@ func Run(g *walk.Graph, mk func() Impl, nPaths, maxLen, k int, seed int64, outPa
 		return nil, os.ErrInvalid
 	}
 	// an instance that has seen unrelated traffic before (same process): its history must not matter
-	for p := 0; p < nPaths; p++ {
+	// targeted histories: shortest paths to the transitions where iteration order matters most - blocks whose
+	// returned validator-update batch has two or more entries (several validators leaving or joining at once)
+	parent := map[int]*walk.Edge{root: nil}
+	queue := []int{root}
+	for len(queue) > 0 {
+		n := queue[0]
+		queue = queue[1:]
+		for _, e := range g.Out[n] {
+			if e.OK {
+				if _, seen := parent[e.To]; !seen {
+					parent[e.To] = e
+					queue = append(queue, e.To)
+				}
+			}
+		}
+	}
+	batchLen := func(st absx.M) int {
+		if l, ok := st["batch"].([]any); ok { // the validator-update batch of the ValSet state; other models have no such list
+			return len(l)
+		}
+		return 0
+	}
+	var targets []*walk.Edge
+	seenTo := map[int]bool{}
+	for from, es := range g.Out {
+		if _, reach := parent[from]; !reach {
+			continue
+		}
+		for _, e := range es {
+			if e.OK && !seenTo[e.To] && batchLen(g.States[e.To]) >= 2 && absx.Canon(g.States[e.To]["batch"]) != absx.Canon(g.States[e.From]["batch"]) {
+				seenTo[e.To] = true
+				targets = append(targets, e)
+			}
+		}
+	}
+	sort.Slice(targets, func(i, j int) bool {
+		a, b := batchLen(g.States[targets[i].To]), batchLen(g.States[targets[j].To])
+		if a != b {
+			return a > b
+		}
+		return absx.Canon(targets[i].E)+absx.Canon(g.States[targets[i].From]) < absx.Canon(targets[j].E)+absx.Canon(g.States[targets[j].From])
+	})
+	if len(targets) > nPaths {
+		targets = targets[:nPaths]
+	}
+	total := nPaths + len(targets)
+	for p := 0; p < total; p++ {
 		// choose the path on the graph first
 		var path []*walk.Edge
 		n := root
-		for len(path) < maxLen {
+		if p >= nPaths {
+			t := targets[p-nPaths]
+			for e := parent[t.From]; e != nil; e = parent[e.From] {
+				path = append([]*walk.Edge{e}, path...)
+			}
+			path = append(path, t)
+			n = t.To
+		}
+		for p < nPaths && len(path) < maxLen {
 			out := g.Out[n]
 			if len(out) == 0 {
 				break
